@@ -64,8 +64,13 @@ Definition spec_stream (pre : str) (w : nat) (c : byte) (left : bool) (fmt : str
   | Raise _ => (pre ++ pad w c left sentinel, false)
   end.
 
-(* message of a raised exception: the argument texts one after the other *)
+(* message of a raised exception: the argument texts one after the other — the STREAM texts (render); the
+   conversion text an argument may also have (ADual) does not occur in the specification *)
 Definition spec_message (rendered : list str) : str := concat rendered.
+
+(* a chain with the conversion texts of its arguments removed / replaced *)
+Definition map_op (g : arg -> arg) (o : op) : op :=
+  match o with Pct a => Pct (g a) | Args l => Args (map g l) end.
 
 (* reading a decimal numeral back (for the round trip of print_dec) *)
 Definition digit_of (b : byte) : option (Decimal.uint -> Decimal.uint) :=
